@@ -6,6 +6,9 @@ ALL = ["C%02d" % i for i in range(1, 21)]
 
 # id -> (category, technique, level text, level note, design ref)
 CHECKS = {
+ "C08": ("exploration", "Go race detector (halt_on_error) + overlap detector inside the harness stream (in-flight counters with seeded dwell) + outcome comparison across schedules of the same case",
+         "Each fixed (source of 100-400 multi-chunk files, prior destination) case is run under schedules drawn from stream capacity x per-operation delays in stream calls, source reads and callbacks x GOMAXPROCS; outcomes (dest, REQ set, notifications with digests) must equal the reference schedule's up to the hard-link exception; any race report or overlapping SendMsg/RecvMsg on one endpoint is a violation. Held on the schedules observed (distinct interleaving fingerprints are counted).",
+         "Only interleavings the Go runtime produced in the run; the race detector sees executed paths only; harness code is itself race-free (it runs under the same detector).", "DESIGN.md §5 C08"),
  "C03": ("exploration", "runtime monitor in a chroot jail: hostile packet scripts sent over real pipes to a receiver process; before/after snapshot (inode, mode, owner, mtime, ctime, bytes, xattrs) of everything outside dest; independent stream specification decides which scripts are malformed and which entries must not have been applied",
          "Generated hostile scripts (every malformation class the statement lists, at every position of a valid STAT sequence) against destinations full of outward symlinks, in normal/merge/metadata-only mode. Containment is checked on every script (also when the receiver crashes), rejection and not-applied-after-offence on malformed ones. Held on the executions observed.",
          "Trusts chroot(2) and the snapshot walker; single attacker (the peer), no concurrent local attacker; receiver crash counts as a failed call.", "DESIGN.md §5 C03, §4.6"),
